@@ -207,7 +207,7 @@ def replay(case, stats):
     if case["sub"] == "reuse":
         from vlib.refcompile import proj_c10
         return pc.check_reuse(case, stats, proj_c10, "C10 projection of the pickles")
-    if case["sub"] == "text":
+    if case["sub"] in ("text", "rawtext"):
         from . import textdocs
         return textdocs.check_text(case, stats, "C10")
     return {"seq": check_seq, "dialect": check_dialect}[case["sub"]](case, stats)
